@@ -368,6 +368,13 @@ func (dc *DataContext) SetValue(Vars map[string]reflect.Value, variable string, 
 			return core.SetSingleValue(v, variable, newValue)
 		} else {
 			//in RuleEntity
+			//a value read from a struct field or a slice element is addressable and still refers to that
+			//field/element: bind the local to a copy, so that it keeps the value it was assigned
+			if newValue.IsValid() && newValue.CanAddr() && newValue.CanInterface() {
+				copied := reflect.New(newValue.Type()).Elem()
+				copied.Set(newValue)
+				newValue = copied
+			}
 			dc.lockVars.Lock()
 			Vars[variable] = newValue
 			dc.lockVars.Unlock()
